@@ -295,7 +295,7 @@ func VerifyDetail(err error, n int) string {
 	if err == nil {
 		return "ok"
 	}
-	if err.Error() == "no signatures to verify" {
+	if strings.HasSuffix(err.Error(), "no signatures to verify") {
 		return "unsigned"
 	}
 	var ge *gobl.Error
